@@ -198,6 +198,19 @@ WRelease(r, k) ==
     /\ wpc' = [wpc EXCEPT ![r][k] = "done"]
     /\ UNCHANGED <<sc, booted, pend, announced, intx, txs, hpc, hidx, collected, cache, msgs, crashed, reported, delivered, out>>
 
+\* several executor calls return "at once": their reports reach the channels in some order
+WPerms(ws) == {p \in [1..Len(ws) -> 1..Len(ws)] : \A i, j \in 1..Len(ws) : i # j => p[i] # p[j]}
+ReleaseMany(ws) ==
+    /\ ~crashed /\ Len(ws) > 0
+    /\ \A i \in 1..Len(ws) : ws[i][1] \in Req /\ ws[i][2] \in 1..Len(wpc[ws[i][1]]) /\ wpc[ws[i][1]][ws[i][2]] = "atGate"
+    /\ \A i, j \in 1..Len(ws) : i # j => ws[i] # ws[j]
+    /\ \E p \in WPerms(ws) :
+         LET ord == [i \in 1..Len(ws) |-> ws[p[i]]]
+             of(r) == SelectSeq(ord, LAMBDA w : w[1] = r)
+         IN results' = [r \in Req |-> results[r] \o [i \in 1..Len(of(r)) |-> ExecRep(r, of(r)[i][2])]]
+    /\ wpc' = [r \in Req |-> [k \in 1..Len(wpc[r]) |-> IF \E i \in 1..Len(ws) : ws[i] = <<r, k>> THEN "done" ELSE wpc[r][k]]]
+    /\ UNCHANGED <<sc, booted, pend, announced, intx, txs, hpc, hidx, collected, cache, msgs, crashed, reported, delivered, out>>
+
 (* ---- chain side: MsgReportData.ValidateBasic + CheckValidReport ---- *)
 Eids(r) == {Raw(r, k).eid : k \in 1..N(r)}
 Acceptable(m) ==
